@@ -71,4 +71,18 @@ theorem write_not_atomic (bw size : Nat) (atomic : Bool) (h : ¬ (atomic = true 
     omega
   simp [this]
 
+/-- A one-word register is written at its only address whatever the ordering. -/
+theorem hwWrite_single (big atomic : Bool) (bw size : Nat) (st : RegSt) (x : Nat) (h : nwords bw size = 1) :
+    hwWrite big atomic bw size st [x] = hwWrite true atomic bw size st [x] := by
+  cases big
+  · simp [hwWrite, hwWriteFrom, wordIdx, h]
+  · rfl
+
+/-- Single-word registers are not affected by the ordering. -/
+theorem hwWords_single (big : Bool) (bw size v : Nat) (h : nwords bw size = 1) :
+    hwWords big bw size v = hwWords true bw size v := by
+  cases big
+  · simp [hwWords, wordIdx, h]
+  · rfl
+
 end Litex.Export
